@@ -34,8 +34,16 @@ def main():
     from mc import core
     if args.replay:
         sys.exit(core.replay(args.prop, args.replay, as_json=args.json, history=args.history))
-    sys.exit(core.run_check(args.prop, args.tier, workers=args.workers, confirm=not args.no_confirm,
-                            write_evidence=not args.no_evidence))
+    try:
+        rc = core.run_check(args.prop, args.tier, workers=args.workers, confirm=not args.no_confirm,
+                            write_evidence=not args.no_evidence)
+    except SystemExit:
+        raise
+    except BaseException as e:  # noqa -- an exception escaping the driver is a harness error (exit 2), never a verdict (exit 1)
+        import traceback
+        print('HARNESS-ERROR the explorer itself failed:\n' + ''.join(traceback.format_exception(e))[-3000:])
+        rc = 2
+    sys.exit(rc)
 
 
 if __name__ == '__main__':
